@@ -58,6 +58,11 @@ Theorem C08_rrtconnect_never_panics : well_formed ->
   forall seeded cs s rs, run rrtc_step (new_planner seeded) cs = (s, rs) -> Forall returns_normally rs.
 Proof. intros (A & B & C). exact (rrtc_never_panics dist interp lvs valid goal starts u64_at usample gsample maxd bias A B C). Qed.
 
+(* RRT*: no call ever panics (unwrap / index); that extraction also terminates is C15 (needs sane distances) *)
+Theorem C08_rrtstar_never_panics : well_formed ->
+  forall seeded cs s rs, run rrtstar_step (new_planner seeded) cs = (s, rs) -> Forall (fun r => r <> RPanic) rs.
+Proof. intros (A & B & C). exact (rrtstar_never_panics dist interp lvs valid goal starts u64_at usample gsample maxd bias radius A B C). Qed.
+
 End C08.
 
 (* Outside [well_formed] the faithful model (and the code) panics: the three classes recorded as
@@ -90,6 +95,7 @@ Print Assumptions C08_prm_uninitialised.
 Print Assumptions C08_prm_unsampled.
 Print Assumptions C08_rrt_never_panics.
 Print Assumptions C08_rrtconnect_never_panics.
+Print Assumptions C08_rrtstar_never_panics.
 Print Assumptions C08_refuted_sampler_fault.
 Print Assumptions C08_refuted_bias_out_of_range.
 Print Assumptions C08_refuted_empty_start.
